@@ -4,6 +4,7 @@ import (
 	"bytes"
 	"fmt"
 	"sort"
+	"sync"
 	"testing"
 
 	"github.com/tsuna/gohbase"
@@ -547,4 +548,148 @@ func TestC08_Exhaustive(t *testing.T) {
 	rec.Label("regions_in_scope", int64(len(regs)))
 	rec.Label("max_history_len", int64(maxLen))
 	rec.SetExhaustive(!failed)
+}
+
+// ---- concurrent discoveries
+
+type c08ConcCase struct {
+	Initial []regSpec `json:"initial"`    // put sequentially first
+	Conc    []regSpec `json:"concurrent"` // put by one goroutine each, released together
+	Reps    int       `json:"reps"`
+}
+
+func c08ConcRun(c c08ConcCase) (out Outcome) {
+	defer func() {
+		if p := recover(); p != nil {
+			out = viol("panic@cache", "panic: %v", p)
+		}
+	}()
+	overlapping := false
+	for i := range c.Conc {
+		for j := i + 1; j < len(c.Conc); j++ {
+			if specOverlap(c.Conc[i], c.Conc[j]) {
+				overlapping = true
+			}
+		}
+	}
+	for rep := 0; rep < c.Reps; rep++ {
+		cache := gohbase.VerifNewRegionCache()
+		specOf := map[hrpc.RegionInfo]regSpec{}
+		var all []hrpc.RegionInfo
+		for _, r := range c.Initial {
+			o := r.info()
+			specOf[o] = r
+			all = append(all, o)
+			cache.Put(o)
+		}
+		objs := make([]hrpc.RegionInfo, len(c.Conc))
+		replaced := make([]bool, len(c.Conc))
+		for i, r := range c.Conc {
+			objs[i] = r.info()
+			specOf[objs[i]] = r
+			all = append(all, objs[i])
+		}
+		start := make(chan struct{})
+		var wg sync.WaitGroup
+		for i := range objs {
+			wg.Add(1)
+			go func(i int) {
+				defer wg.Done()
+				<-start
+				_, replaced[i] = cache.Put(objs[i])
+			}(i)
+		}
+		close(start)
+		wg.Wait()
+		snap := cache.Snapshot()
+		in := map[hrpc.RegionInfo]bool{}
+		for _, r := range snap {
+			in[r] = true
+		}
+		for a := 0; a < len(snap); a++ {
+			for b := a + 1; b < len(snap); b++ {
+				if specOverlap(specOf[snap[a]], specOf[snap[b]]) {
+					return viol("cache-overlap-concurrent", "after %d concurrent discoveries (repetition %d) the cache holds overlapping regions %q and %q", len(c.Conc), rep, snap[a].Name(), snap[b].Name())
+				}
+			}
+			if snap[a].Context().Err() != nil {
+				return viol("cached-but-dead", "region %q is cached but marked dead after concurrent discoveries", snap[a].Name())
+			}
+		}
+		for i, o := range objs {
+			if replaced[i] && !in[o] && o.Context().Err() == nil {
+				return viol("evicted-not-dead", "region %q was accepted, is no longer cached, and is not marked dead (concurrent discoveries)", o.Name())
+			}
+		}
+		for _, o := range all[:len(c.Initial)] {
+			if !in[o] && o.Context().Err() == nil && wasAccepted(c.Initial, specOf[o]) {
+				// an initial region that was cached and has been displaced must be dead
+				return viol("evicted-not-dead", "region %q was displaced by a concurrent discovery but is not marked dead", o.Name())
+			}
+		}
+	}
+	out.NonTrivial = overlapping
+	if overlapping {
+		out.Labels = append(out.Labels, "concurrent_overlapping")
+	}
+	return out
+}
+
+// wasAccepted replays the initial sequence on the model to tell whether r was in the
+// cache before the concurrent phase.
+func wasAccepted(initial []regSpec, r regSpec) bool {
+	m := newC08Model()
+	accepted := false
+	for i, x := range initial {
+		_, ov, verdict := m.classify(x)
+		m.specs[i] = x
+		if verdict != "refuse" {
+			m.apply(i, x, ov)
+		}
+		if bytes.Equal(x.name(), r.name()) && x.ID == r.ID {
+			accepted = verdict != "refuse"
+		}
+	}
+	if !accepted {
+		return false
+	}
+	for i := range m.cached {
+		if bytes.Equal(m.specs[i].name(), r.name()) {
+			return true
+		}
+	}
+	return false
+}
+
+func TestC08_Concurrent(t *testing.T) {
+	rec := evid.New("C08", "TestC08_Concurrent",
+		"rapid + real goroutines: 0..4 regions are cached, then 2..4 further regions - overlapping each other and the "+
+			"cached ones (split parent vs daughters, nested, identical ranges with other ids) - are discovered by one "+
+			"goroutine each, released together, 20..60 repetitions per case on fresh caches. Oracle at the end of each "+
+			"repetition: no two cached regions of a table intersect, cached regions are alive, accepted-and-displaced "+
+			"regions are dead. Non-trivial = the concurrent regions overlap each other; distinct by case hash. "+
+			"Interleavings are chosen by the Go scheduler (sampling)")
+	Drive(t, rec, false, func(t *rapid.T) c08ConcCase {
+		var c c08ConcCase
+		alpha := []byte{'a', 'b', 'c', 'd'}
+		mk := func(id uint64) regSpec {
+			r := regSpec{Table: "t", ID: id}
+			r.Start = gen.KeyFrom(alpha, 1).Draw(t, "start")
+			r.Stop = gen.KeyFrom(alpha, 1).Draw(t, "stop")
+			if len(r.Stop) != 0 && bytes.Compare(r.Start, r.Stop) >= 0 {
+				r.Stop = nil
+			}
+			return r
+		}
+		ni := rapid.IntRange(0, 4).Draw(t, "ninitial")
+		for i := 0; i < ni; i++ {
+			c.Initial = append(c.Initial, mk(uint64(1+i)))
+		}
+		nc := rapid.IntRange(2, 4).Draw(t, "nconc")
+		for i := 0; i < nc; i++ {
+			c.Conc = append(c.Conc, mk(uint64(10+rapid.IntRange(0, 3).Draw(t, "cid"))))
+		}
+		c.Reps = rapid.SampledFrom([]int{20, 40, 60}).Draw(t, "reps")
+		return c
+	}, c08ConcRun)
 }
